@@ -22,7 +22,9 @@ EXPLANATION = (
     "T-section: the byte count pieceGetMixed computes for a new mixed section of nq quanta (header term C, per-quantum term D, "
     "both constant-evaluated) dominates the capacity formula of sectQmCount ((pages*PgSize - H)/(q + B)): C >= H and D >= quantum + B, "
     "so the section prepared from QUO_ROUND_UP(nb, PgSize) pages holds at least nq quanta. "
-    "Behaviour over allocation histories is not decided.")
+    "T-carve: stoAllocInner (pages for the allocator's own B-tree nodes and list heads) cuts pagesGet(npages) into npcs cells of "
+    "nbytes with npcs = (k*npages)/nbytes, k <= PgSize, and a loop creating cells 1..npcs-1 after the first: floor division keeps "
+    "every cell inside the pages. Behaviour over allocation histories is not decided.")
 
 
 def array_values(var):
@@ -241,12 +243,61 @@ def check_section_sizing(rep, config):
                       "pieceGetMixed allows %d bytes per quantum, a quantum costs %d + %d" % (D, Q, B))
 
 
+def check_carving(rep, config, rule="T-carve"):
+    """stoAllocInner cuts npages pages into npcs cells of nbytes: the cells must lie inside the pages, npcs*nbytes <= npages*PgSize."""
+    f = common.extract("store.c", config, trees=["stoAllocInner"])
+    fn = f.func("stoAllocInner")
+    where = "store.c:%d (stoAllocInner)[%s]" % (fn["l"], config)
+    size = [p["n"] for p in fn["params"]][0]
+    npcs = None
+    for x in common.walk(fn["body"]):
+        if x["k"] == "BinaryOperator" and x["op"] == "=" and common.strip(x["c"][0]) is not None and common.strip(x["c"][0]).get("n") == "npcs":
+            npcs = common.strip(x["c"][1])
+    got = [c for c in common.calls(fn["body"], "pagesGet")]
+    carve = [x for x in common.walk(fn["body"]) if x["k"] == "ForStmt" and any(
+        y["k"] == "DeclRefExpr" and y["n"] == size for y in common.walk(x["c"][3]))]
+    if npcs is None or len(got) != 1 or len(carve) != 1:
+        raise AnalysisBroken("stoAllocInner: `npcs = ...; pages = pagesGet(npages); for (...) carve cells of nbytes` not recognised")
+    pv = common.strip(got[0]["c"][1])
+    pages_var = pv.get("n") if pv is not None else None
+    # the loop makes cells 1 .. npcs-1 after the first: i from 1 while i < npcs
+    lc = common.strip(carve[0]["c"][1])
+    li = common.strip(carve[0]["c"][0])
+    loop_ok = (lc is not None and lc["k"] == "BinaryOperator" and lc["op"] == "<" and common.strip(lc["c"][1]).get("n") == "npcs"
+               and li is not None and li["k"] == "BinaryOperator" and common.const_value(li["c"][1]) == 1)
+    ok = False
+    why = "npcs = %s" % common.render(npcs)
+    if npcs["k"] == "BinaryOperator" and npcs["op"] == "/" and pages_var:
+        num = _linear(npcs["c"][0], pages_var)
+        den = common.strip(npcs["c"][1])
+        P = common.extract(os.path.join(common.VERIF, "witness", "store_probe.c"), config).enum_values("verif_store_probe")
+        if num is not None and num[1] == 0 and 0 < num[0] <= P["VP_PgSize"] and den is not None and den.get("n") == size:
+            ok = True        # floor((k*npages)/nbytes) * nbytes <= k*npages <= npages*PgSize
+    if not (ok and loop_ok):
+        # a form the rule knows to exceed the floor: x/nbytes rounded up (conditional + 1, or (x + nbytes - 1)/nbytes), or a loop
+        # that creates npcs cells after the first
+        rounds_up = any(y["k"] == "ConditionalOperator" for y in common.walk(npcs)) or any(
+            y["k"] == "BinaryOperator" and y["op"] == "+" for y in common.walk(npcs))
+        loop_over = lc is not None and lc["k"] == "BinaryOperator" and lc["op"] == "<="
+        if not (rounds_up or loop_over):
+            raise AnalysisBroken("stoAllocInner: cell count `%s` / loop `%s` is of a form this rule cannot decide" % (
+                common.render(npcs), common.render(lc)))
+    if ok and loop_ok:
+        rep.ok(rule, "%s:cells-inside-pages" % config, sample={"npcs": common.render(npcs), "pages": "pagesGet(%s)" % pages_var})
+    else:
+        rep.violation(rule, "%s:cells-inside-pages" % config, where,
+                      "%s with the carving loop `%s`: the number of %s-byte cells cut from pagesGet(%s) is not floor(pages*PgSize/%s), so "
+                      "the last cell can extend beyond the pages obtained (into the next heap page)"
+                      % (why, common.render(lc), size, pages_var, size))
+
+
 def run(tier):
     rep = common.Report("C10", tier, EXPLANATION)
     for config in ("compiler", "runtime"):
         check_config(rep, config)
         check_lookup_init(rep, config)
         check_section_sizing(rep, config)
+        check_carving(rep, config)
     rep.floor("C10 table obligations", rep.obligations, 60)
     rep.assumptions.append("allocation, free, resize and collection histories are not analysed")
     return rep
